@@ -83,7 +83,9 @@ func c17Edit(o *mc.Explorer, p *gen.Program) (string, bool) {
 		calls := []func() gen.Stmt{
 			func() gen.Stmt { return &gen.Call{Name: "balance", Args: []gen.Expr{gen.Acct("a"), gen.Asset("USD")}} },
 			func() gen.Stmt { return &gen.Call{Name: "meta", Args: []gen.Expr{gen.Acct("a"), gen.Str("k")}} },
-			func() gen.Stmt { return &gen.Call{Name: "overdraft", Args: []gen.Expr{gen.Acct("a"), gen.Asset("USD")}} },
+			func() gen.Stmt {
+				return &gen.Call{Name: "overdraft", Args: []gen.Expr{gen.Acct("a"), gen.Asset("USD")}}
+			},
 		}
 		p.Stmts = append(p.Stmts, calls[o.Choose(len(calls))]())
 		return "origin-builtin-as-statement", true
@@ -108,7 +110,10 @@ func c17Edit(o *mc.Explorer, p *gen.Program) (string, bool) {
 			return "", false
 		}
 		set := leaves[o.Choose(len(leaves))]
-		switch o.Choose(4) {
+		switch o.Choose(5) {
+		case 4:
+			set(&gen.SrcOverdraft{Addr: gen.Acct("world"), Bounded: gen.Mon("USD", "10")})
+			return "sendall-world-bounded-overdraft", true
 		case 3:
 			// the unbounded overdraft sits on an account VARIABLE
 			name := ""
@@ -140,6 +145,73 @@ func c17Edit(o *mc.Explorer, p *gen.Program) (string, bool) {
 	return d, ok
 }
 
+// c17Judge: one (possibly edited) script: if the checker reports no error, run it with well-typed
+// variable values on a rich and on a poor sheet and judge the failure class.
+func c17Judge(w *mc.Worker, prog *gen.Program, edits []string, flagsOn map[string]struct{}) {
+	text := gen.Text(prog)
+	var res analysis.CheckResult
+	pmsg, _ := guard(func() { res = analysis.CheckSource(text) })
+	if pmsg != "" {
+		w.Eval(text, false, "check-panic (C18's subject)")
+		return
+	}
+	nErr, nAll := res.GetErrorsCount(), len(res.Diagnostics)
+	if nErr > 0 {
+		w.Eval(text, false, "check-reports-errors")
+		return
+	}
+	pr, ok := parseQuiet(text)
+	if !ok {
+		w.Eval(text, false, "unparsable")
+		return
+	}
+	vars := map[string]string{}
+	meta := env.Meta{"a": {}}
+	for _, d := range prog.Vars {
+		gv, known := goodValue[d.Type.Name]
+		if !known {
+			gv = "k"
+		}
+		if d.Origin == nil {
+			vars[d.Name.Name] = gv
+		} else if d.Origin.Name == "meta" && len(d.Origin.Args) == 2 {
+			if key, isStr := d.Origin.Args[1].(*gen.StrLit); isStr {
+				meta["a"][key.S] = gv
+			}
+		}
+	}
+	for si, amt := range []*big.Int{bi(1000), bi(0)} {
+		bal := env.Bal{"a": {"USD": amt, "EUR/2": amt}, "b": {"USD": amt}, "world:c-d_1": {"USD": amt, "EUR/2": amt}, "lit": {"USD": amt}}
+		out := RunReal(pr, vars, env.New(env.Exact, bal, meta), flagsOn)
+		key := text + fmt.Sprint("|sheet", si)
+		if out.Panic != "" {
+			w.Eval(key, false, "run-panic (C12's subject)")
+			continue
+		}
+		outcome := fmt.Sprintf("edits=%d diags=%d run=%s", len(edits), nAll, out.Class())
+		nt := len(edits) > 0 || out.Err != nil
+		w.Eval(key, nt, outcome)
+		c := Case{Script: text, Vars: copyVars(vars), Balances: balStr(bal), Meta: meta,
+			Extra: map[string]any{"edits": edits, "diagnostics": diagSet(res)}}
+		if out.Err != nil {
+			c.Observed = out.ErrType + ": " + out.Err.Error()
+			switch {
+			case isStaticCause(out.ErrType):
+				feat := ""
+				if strings.Contains(text, " + ") || strings.Contains(text, " - ") {
+					feat = ":infix"
+				}
+				w.Violation("C17.static-failure:"+out.ErrType+feat, "the checker reported no error, yet execution failed with "+out.ErrType+": "+out.Err.Error(), len(text), c)
+			case nAll == 0 && causeOf(out.ErrType) == "send-all-shape":
+				w.Violation("C17.sendall-shape:"+out.ErrType, "the checker reported nothing at all, yet execution failed because of the shape of a send-all source", len(text), c)
+			}
+		}
+		if nt {
+			w.Sample(outcome, c)
+		}
+	}
+}
+
 func runC17(w *mc.Worker) {
 	type bound struct {
 		name                 string
@@ -154,6 +226,44 @@ func runC17(w *mc.Worker) {
 	}
 	flagsOn := map[string]struct{}{interpreter.ExperimentalOverdraftFunctionFeatureFlag: {}}
 	c17Nested(w, flagsOn)
+	// arithmetic between a variable that has an origin and a partner of every type, in every typed position
+	w.Stage("origin-infix", "3 origin declarations (balance / meta number / overdraft) x {$v op P, P op $v} x op in {+,-} x P in {number, monetary, string, account, portion} x 4 positions (sent amount, cap, overdraft bound, metadata value)", func() {
+		w.Outer("origin-infix/script", 0, func(o *mc.Explorer) {
+			decls := []func() *gen.VarDecl{
+				func() *gen.VarDecl { return originDecl("monetary", "v", "balance", gen.Acct("a"), gen.Asset("USD")) },
+				func() *gen.VarDecl { return originDecl("number", "v", "meta", gen.Acct("a"), gen.Str("n")) },
+				func() *gen.VarDecl { return originDecl("monetary", "v", "overdraft", gen.Acct("a"), gen.Asset("USD")) },
+			}
+			partners := []func() gen.Expr{
+				func() gen.Expr { return gen.Num("1") }, func() gen.Expr { return gen.Mon("USD", "1") }, func() gen.Expr { return gen.Str("s") },
+				func() gen.Expr { return gen.Acct("a") }, func() gen.Expr { return gen.Port("1/2") },
+			}
+			d := decls[o.Choose(len(decls))]()
+			op := []string{"+", "-"}[o.Choose(2)]
+			p := partners[o.Choose(len(partners))]()
+			var e gen.Expr = &gen.Infix{Op: op, L: gen.V("v"), R: p}
+			if o.Choose(2) == 1 {
+				e = &gen.Infix{Op: op, L: p, R: gen.V("v")}
+			}
+			var st gen.Stmt
+			switch o.Choose(4) {
+			case 0:
+				st = &gen.Send{Sent: &gen.SentLit{E: e}, Src: sa("world"), Dst: da("x")}
+			case 1:
+				st = sendN("USD", "3", &gen.SrcCapped{Cap: e, From: sa("world")}, da("x"))
+			case 2:
+				st = sendN("USD", "3", lst(&gen.SrcOverdraft{Addr: gen.Acct("b"), Bounded: e}, sa("world")), da("x"))
+			default:
+				st = &gen.Call{Name: "set_tx_meta", Args: []gen.Expr{gen.Str("k"), e}}
+			}
+			prog := &gen.Program{Vars: []*gen.VarDecl{d}, HasVars: true, Stmts: []gen.Stmt{st}}
+			if !w.Mine(gen.Text(prog)) {
+				return
+			}
+			w.Owned()
+			w.Inner(0, func(in *mc.Explorer) { c17Judge(w, prog, []string{"origin-infix"}, flagsOn) })
+		})
+	})
 	for _, b := range stages {
 		b := b
 		desc := fmt.Sprintf("valid scripts of weight <= %d (depth <= %d) with <= %d type-breaking edit(s); rich and poor sheets", b.weight, b.depth, b.edits)
@@ -184,68 +294,7 @@ func runC17(w *mc.Worker) {
 						}
 						edits = append(edits, d)
 					}
-					text := gen.Text(prog)
-					var res analysis.CheckResult
-					pmsg, _ := guard(func() { res = analysis.CheckSource(text) })
-					if pmsg != "" {
-						w.Eval(text, false, "check-panic (C18's subject)")
-						return
-					}
-					nErr, nAll := res.GetErrorsCount(), len(res.Diagnostics)
-					if nErr > 0 {
-						w.Eval(text, false, "check-reports-errors")
-						return
-					}
-					pr, ok := parseQuiet(text)
-					if !ok {
-						w.Eval(text, false, "unparsable")
-						return
-					}
-					vars := map[string]string{}
-					meta := env.Meta{"a": {}}
-					for _, d := range prog.Vars {
-						gv, known := goodValue[d.Type.Name]
-						if !known {
-							gv = "k"
-						}
-						if d.Origin == nil {
-							vars[d.Name.Name] = gv
-						} else if d.Origin.Name == "meta" && len(d.Origin.Args) == 2 {
-							if key, isStr := d.Origin.Args[1].(*gen.StrLit); isStr {
-								meta["a"][key.S] = gv
-							}
-						}
-					}
-					for si, amt := range []*big.Int{bi(1000), bi(0)} {
-						bal := env.Bal{"a": {"USD": amt, "EUR/2": amt}, "b": {"USD": amt}, "world:c-d_1": {"USD": amt, "EUR/2": amt}, "lit": {"USD": amt}}
-						out := RunReal(pr, vars, env.New(env.Exact, bal, meta), flagsOn)
-						key := text + fmt.Sprint("|sheet", si)
-						if out.Panic != "" {
-							w.Eval(key, false, "run-panic (C12's subject)")
-							continue
-						}
-						outcome := fmt.Sprintf("edits=%d diags=%d run=%s", len(edits), nAll, out.Class())
-						nt := len(edits) > 0 || out.Err != nil
-						w.Eval(key, nt, outcome)
-						c := Case{Script: text, Vars: copyVars(vars), Balances: balStr(bal), Meta: meta,
-							Extra: map[string]any{"edits": edits, "diagnostics": diagSet(res)}}
-						if out.Err != nil {
-							c.Observed = out.ErrType + ": " + out.Err.Error()
-							switch {
-							case isStaticCause(out.ErrType):
-								feat := ""
-								if strings.Contains(text, " + ") || strings.Contains(text, " - ") {
-									feat = ":infix"
-								}
-								w.Violation("C17.static-failure:"+out.ErrType+feat, "the checker reported no error, yet execution failed with "+out.ErrType+": "+out.Err.Error(), len(text), c)
-							case nAll == 0 && causeOf(out.ErrType) == "send-all-shape":
-								w.Violation("C17.sendall-shape:"+out.ErrType, "the checker reported nothing at all, yet execution failed because of the shape of a send-all source", len(text), c)
-							}
-						}
-						if nt {
-							w.Sample(outcome, c)
-						}
-					}
+					c17Judge(w, prog, edits, flagsOn)
 				})
 			})
 		})
